@@ -175,7 +175,10 @@ func c03internal(c c03Cand) bool {
 // c03RefBest runs the documented elimination over a set in which MED is comparable across all
 // candidates. It returns the index of the winner and the step that finally decided (for the
 // vacuity statistics), or -1 when the documented process leaves a tie.
-func c03RefBest(set []c03Cand, o c03Opt) (int, string) {
+func c03RefBest(set []c03Cand, o c03Opt) (int, string) { return c03RefBestMed(set, o, true) }
+
+// c03RefBestMed: medStep=false skips the MED step (a pair whose MEDs are not comparable).
+func c03RefBestMed(set []c03Cand, o c03Opt, medStep bool) (int, string) {
 	alive := make([]int, len(set))
 	for i := range alive {
 		alive[i] = i
@@ -216,7 +219,9 @@ func c03RefBest(set []c03Cand, o c03Opt) (int, string) {
 		keep("aspath", func(c c03Cand) int64 { return int64(c03PathLen(c03Paths[c.Path])) })
 	}
 	keep("origin", func(c c03Cand) int64 { return int64(c.Origin) })
-	keep("med", func(c c03Cand) int64 { return int64(c03med(c)) })
+	if medStep {
+		keep("med", func(c c03Cand) int64 { return int64(c03med(c)) })
+	}
 	keep("ebgp", func(c c03Cand) int64 { return b(c03internal(c)) })
 	if len(alive) > 1 {
 		allExt := true
@@ -429,7 +434,13 @@ func c03Check(r *vr.Report, o c03Opt, set []c03Cand, hists [][]c03Op, tag string
 	refBest, step := -1, "n/a"
 	if comparable {
 		refBest, step = c03RefBest(set, o)
+	} else if len(set) == 2 {
+		// a pair is always decidable: MED simply does not take part when it is not comparable
+		// ("lowest MED among comparable routes")
+		refBest, step = c03RefBestMed(set, o, false)
+		step += "(med-not-comparable)"
 	}
+	pairOnly := !comparable && len(set) == 2
 	var first *c03Result
 	for hi, h := range hists {
 		r.Eval()
@@ -439,7 +450,7 @@ func c03Check(r *vr.Report, o c03Opt, set []c03Cand, hists [][]c03Op, tag string
 			r.Violationf("C03:inconsistency:"+res.err[:20], cs, "%s: %s set=%v", tag, res.err, set)
 			continue
 		}
-		if !comparable {
+		if !comparable && !pairOnly {
 			continue
 		}
 		// The precondition of the property is evaluated over every route that was ever a candidate
@@ -452,7 +463,7 @@ func c03Check(r *vr.Report, o c03Opt, set []c03Cand, hists [][]c03Op, tag string
 				all = append(all, op.Cand)
 			}
 		}
-		if !c03AllMedComparable(all, o) {
+		if !pairOnly && !c03AllMedComparable(all, o) {
 			r.Outcome("history-passes-through-non-comparable-med(skipped)")
 			continue
 		}
@@ -509,12 +520,82 @@ func c03Check(r *vr.Report, o c03Opt, set []c03Cand, hists [][]c03Op, tag string
 				tag, o, res.order, first.order, set)
 		}
 	}
-	if comparable {
+	if comparable || pairOnly {
 		r.NT(fmt.Sprint(o, set))
 		r.Outcome("decided-by-" + step)
 	} else {
 		r.Outcome("med-not-comparable(skipped order oracle)")
 	}
+}
+
+// c03Twins: single-factor variants of a candidate (same source): what its source may have announced
+// before the final version.
+func c03Twins(c c03Cand) []c03Cand {
+	var out []c03Cand
+	add := func(x c03Cand) {
+		if x != c {
+			out = append(out, x)
+		}
+	}
+	for _, lp := range []int{-1, 100, 200} {
+		x := c
+		x.LP = lp
+		add(x)
+	}
+	for _, p := range []int{0, 1, 2} {
+		x := c
+		x.Path = p
+		add(x)
+	}
+	for _, og := range []int{0, 2} {
+		x := c
+		x.Origin = og
+		add(x)
+	}
+	for _, m := range []int{-1, 10} {
+		x := c
+		x.MED = m
+		add(x)
+	}
+	for _, t := range []int64{1, 3} {
+		x := c
+		x.TS = t
+		add(x)
+	}
+	x := c
+	x.NHInv = !c.NHInv
+	add(x)
+	x = c
+	x.LLGR = !c.LLGR
+	add(x)
+	return out
+}
+
+// c03ReplaceHistories: for every member i and every twin t of it, the set arrives with t in place of
+// member i (forward and reverse order), then the source of i announces the final version.
+func c03ReplaceHistories(set []c03Cand) [][]c03Op {
+	var hs [][]c03Op
+	for i := range set {
+		for _, t := range c03Twins(set[i]) {
+			for _, rev := range []bool{false, true} {
+				var h []c03Op
+				for k := range set {
+					j := k
+					if rev {
+						j = len(set) - 1 - k
+					}
+					c := set[j]
+					if j == i {
+						c = t
+					}
+					h = append(h, c03Op{Cand: c})
+				}
+				h = append(h, c03Op{Cand: set[i]})
+				hs = append(hs, h)
+			}
+		}
+	}
+	return hs
 }
 
 func c03DistinctSources(set []c03Cand) bool {
@@ -733,7 +814,11 @@ func TestVerif_C03(t *testing.T) {
 					if !c03DistinctSources(set) {
 						continue
 					}
-					c03Check(c, o, set, c03Histories(set, p2, nil, false), "pair")
+					hs := c03Histories(set, p2, nil, false)
+					if n%7 == 0 {
+						hs = append(hs, c03ReplaceHistories(set)...)
+					}
+					c03Check(c, o, set, hs, "pair")
 					if c.WantSample() && n%977 == 0 {
 						c.Sample(c03Case{o, set, nil})
 					}
@@ -751,7 +836,7 @@ func TestVerif_C03(t *testing.T) {
 				if !c03DistinctSources(set) {
 					return
 				}
-				c03Check(c, o, set, c03Histories(set, p3, extra, true), "triple")
+				c03Check(c, o, set, append(c03Histories(set, p3, extra, true), c03ReplaceHistories(set)...), "triple")
 			})
 		})
 		r.Parallel(W, func(w int, c *vr.Report) {
